@@ -206,7 +206,28 @@ def main():
             goals.append(("Ctransform hands (omegasign, wavelength, wedge, chi, t) to %s" % ("compute_gv" if key == "gv" else "compute_geometry"),
                           z3.And(z3.BoolVal(osg == 1.0), T(wv) == p["wavelength"].t, T(we) == p["wedge"].t, T(ch) == p["chi"].t, T(tt[0]) == p["t_x"].t, T(tt[1]) == p["t_y"].t, T(tt[2]) == p["t_z"].t)))
         return dict(goals=goals, inputs={n: v.t for n, v in p.items() if isinstance(v, Sym)})
+    def replay_numba_xyz(vals):
+        """the numba copy of compute_xyz_lab / detector_rotation_matrix (python body and compiled) against transform.py at the model point and over all 8 flips"""
+        DK = ("y_center", "y_size", "tilt_y", "z_center", "z_size", "tilt_z", "tilt_x", "distance", "o11", "o12", "o21", "o22")
+        pts = []
+        if vals and all(vals.get(k) is not None for k in DK): pts.append({k: float(vals[k]) for k in DK})
+        base = dict(y_center=1000.0, z_center=1100.0, y_size=0.05, z_size=-0.045, distance=200.0, tilt_x=0.01, tilt_y=-0.02, tilt_z=0.03)
+        for fl in ((1, 0, 0, 1), (1, 0, 0, -1), (-1, 0, 0, 1), (-1, 0, 0, -1), (0, 1, 1, 0), (0, 1, -1, 0), (0, -1, 1, 0), (0, -1, -1, 0)):
+            pts.append(dict(base, o11=float(fl[0]), o12=float(fl[1]), o21=float(fl[2]), o22=float(fl[3])))
+        sc = np.array([10.0, 700.5, 2000.0]); fc = np.array([1500.0, 33.25, 1024.0])
+        for q in pts:
+            ref = TR.compute_xyz_lab([sc, fc], **q)
+            for tag, f in (("python body", pyf(PB.compute_xyz_lab)), ("compiled", PB.compute_xyz_lab)):
+                try: got = f(sc.copy(), fc.copy(), **q)
+                except Exception as e: return "numba compute_xyz_lab (%s) raised %s: %s" % (tag, type(e).__name__, str(e)[:100])
+                if not np.allclose(got, ref, rtol=1e-9, atol=1e-9 * (1 + np.abs(ref).max())):
+                    return "point_by_point.compute_xyz_lab (%s) differs from transform.compute_xyz_lab for flip (%g,%g,%g,%g), tilts (%g,%g,%g): %s vs %s" % (tag, q["o11"], q["o12"], q["o21"], q["o22"], q["tilt_x"], q["tilt_y"], q["tilt_z"], np.asarray(got)[:, 0].tolist(), ref[:, 0].tolist())
+            d1 = TR.detector_rotation_matrix(q["tilt_x"], q["tilt_y"], q["tilt_z"]); d2 = pyf(PB.detector_rotation_matrix)(q["tilt_x"], q["tilt_y"], q["tilt_z"])
+            if not np.allclose(d1, d2, atol=1e-12): return "point_by_point.detector_rotation_matrix differs from transform.py for tilts (%g,%g,%g)" % (q["tilt_x"], q["tilt_y"], q["tilt_z"])
+        return None
     def replay_any(vals, label):
+        if "numba" in label:
+            msg = replay_numba_xyz(vals); return (msg is not None), (msg or "numba copies of compute_xyz_lab / detector_rotation_matrix agree with transform.py at the model point and on all 8 flips")
         msg = replay_kernels(vals); return (msg is not None), (msg or "fast route agrees with the reference on the confirmation sweep")
     # ---- numba copies of the per-peak formulas = transform.py, path by path
     def run_numba():
